@@ -17,7 +17,11 @@ func TestMain(m *testing.M) {
 func genCase(t *rapid.T) Case {
 	c := Case{}
 	nc := rapid.IntRange(1, 10).Draw(t, "ncols")
-	c.Cols = gen.Cols(nc, pgwire.TypeNames).Draw(t, "cols")
+	types := pgwire.TypeNames
+	if rapid.IntRange(0, 3).Draw(t, "extended-types") == 2 {
+		types = append(append([]string{}, types...), "custom", "custom")
+	}
+	c.Cols = gen.Cols(nc, types).Draw(t, "cols")
 	nr := rapid.IntRange(1, 6).Draw(t, "nrows")
 	for i := 0; i < nr; i++ {
 		c.Rows = append(c.Rows, gen.Row(c.Cols, 25, true).Draw(t, "row"))
